@@ -368,7 +368,8 @@ type c48Verdict struct {
 	nontriv   bool
 	desc      string
 	truncated bool
-	diffed    int // trie node lookups compared with their one-by-one replies
+	diffed    int  // trie node lookups compared with their one-by-one replies
+	missHit   bool // trie nodes: a path holding nothing precedes, in the same trie, a served stored node
 }
 
 // c48Judge decodes the request (if it decodes the handler must have answered) and
@@ -863,8 +864,11 @@ type c48Lookup struct {
 	want []byte // expected blob, nil = nothing stored at that path
 	wild bool   // malformed path: anything that is a node of the trie, or nothing
 	tr   *reftrie.Result
+	// prone: the lookup may end in a server-side lookup error instead of an answer
+	prone bool
 	// the raw request items of this lookup, for asking it again on its own
 	storage bool
+	set     int // index of the path set within the request
 	acct    []byte
 	path    []byte
 }
@@ -925,8 +929,10 @@ func c48JudgeNodesOpt(t c48T, env *c48Env, req *GetTrieNodesPacket, res *TrieNod
 	var lookups []c48Lookup
 	uncertain := false
 	it := req.Paths.ContentIterator()
+	setIdx := -1
 outer:
 	for it.Next() {
+		setIdx++
 		k, content, _, err := rlp.Split(it.Value())
 		if err != nil || k != rlp.List {
 			break
@@ -953,7 +959,9 @@ outer:
 				break outer
 			}
 			hex, wild := c48CompactToHex(items[0].b)
-			lookups = append(lookups, c48Lookup{want: model.Trie.Nodes[string(hex)], wild: wild, tr: model.Trie, path: items[0].b})
+			l := c48Lookup{want: model.Trie.Nodes[string(hex)], wild: wild, tr: model.Trie, path: items[0].b}
+			l.prone = bytes.IndexByte(hex, 16) >= 0 || (l.want == nil && l.tr.Embedded > 0)
+			lookups = append(lookups, l)
 		default:
 			if items[0].list {
 				break outer
@@ -967,7 +975,9 @@ outer:
 					break outer
 				}
 				hex, wild := c48CompactToHex(p.b)
-				lookups = append(lookups, c48Lookup{want: acct.St.Nodes[string(hex)], wild: wild, tr: acct.St, storage: true, acct: items[0].b, path: p.b})
+				l := c48Lookup{want: acct.St.Nodes[string(hex)], wild: wild, tr: acct.St, storage: true, set: setIdx, acct: items[0].b, path: p.b}
+				l.prone = bytes.IndexByte(hex, 16) >= 0 || (l.want == nil && l.tr.Embedded > 0)
+				lookups = append(lookups, l)
 			}
 		}
 	}
@@ -1014,58 +1024,109 @@ outer:
 	for _, b := range res.Nodes {
 		all += uint64(len(b))
 	}
-	expect := 0
-	anyWild := false
+	// A lookup the server may be unable to serve (it then appends nothing, and gives up
+	// the rest of a storage path set): a path carrying the terminator (it addresses a
+	// value, not a node), an embedded (not separately stored) node, a malformed path.
+	expect, expectMin := 0, 0
+	anyProne := false
+	shadow := map[int]bool{}
 	for _, l := range lookups {
-		if l.wild {
-			anyWild = true
-		} else if l.want != nil {
+		switch {
+		case l.wild:
+		case l.want != nil:
 			expect++
+			if !(l.storage && shadow[l.set]) {
+				expectMin++
+			}
+		}
+		if l.wild || l.prone {
+			anyProne = true
+			if l.storage {
+				shadow[l.set] = true
+			}
 		}
 	}
+	mayBeCut := all > budget || len(lookups) > 64 || elapsed >= 2*time.Second
 	// completeness: unless a limit (bytes, lookups, wall clock) may have cut the reply
 	// short, every stored node that was asked for is delivered
-	if !malformed && !anyWild && avail == c48Must && all <= budget && len(lookups) <= 64 && elapsed < 2*time.Second && filled != expect {
+	if !malformed && !anyProne && avail == c48Must && !mayBeCut && filled != expect {
 		t.Fatalf("TrieNodes returned %d nodes, %d of the requested paths hold a stored node (root %x, bytes %d, paths %x)", filled, expect, req.Root, req.Bytes, req.Paths.Content())
 	}
-	mayBeCut := all > budget || len(lookups) > 64 || elapsed >= 2*time.Second
+	if !malformed && avail == c48Must && !mayBeCut && filled < expectMin {
+		t.Fatalf("TrieNodes returned %d nodes, at least %d of the requested paths hold a stored node that must be served (root %x, bytes %d, paths %x)", filled, expectMin, req.Root, req.Bytes, req.Paths.Content())
+	}
 	// differential oracle: the batch is served from one cached in-memory trie per
 	// request; that must not change any answer: reply == concatenation of the replies
 	// to the same paths requested one by one (a prefix of it where a limit cut it)
 	if differential && len(lookups) > 1 && len(lookups) <= c48MaxSingles {
-		var single [][]byte
-		var from []int
+		replies := make([][][]byte, len(lookups))
+		skipped := false
 		for li, l := range lookups {
-			for _, b := range c48AskSingle(t, env, req.Root, l) {
-				single = append(single, b)
-				from = append(from, li)
-			}
+			replies[li] = c48AskSingle(t, env, req.Root, l)
+			skipped = skipped || len(replies[li]) == 0
 		}
-		for i, blob := range res.Nodes {
-			if i >= len(single) {
-				if uncertain {
-					break
+		// A path the server cannot serve (lookup error) yields no item at all. What that
+		// means for the remaining paths of the same storage path set is not specified:
+		// both "served" and "dropped with it" are accepted.
+		compare := func(dropRest bool) string {
+			var single [][]byte
+			var from []int
+			dropSet := -1
+			for li, l := range lookups {
+				if dropRest && l.storage && l.set == dropSet {
+					continue
 				}
-				t.Fatalf("TrieNodes batch returned %d items, the same %d paths requested one by one yield %d (root %x, paths %x)",
-					len(res.Nodes), len(lookups), len(single), req.Root, req.Paths.Content())
+				if len(replies[li]) == 0 && l.storage {
+					dropSet = l.set
+				}
+				for _, b := range replies[li] {
+					single = append(single, b)
+					from = append(from, li)
+				}
 			}
-			if !bytes.Equal(blob, single[i]) {
-				l := lookups[from[i]]
-				t.Fatalf("TrieNodes batch item %d (%x) differs from the reply to the same path requested alone (%x): lookup %d, storage=%v account %x path %x (root %x, paths %x)",
-					i, blob, single[i], from[i], l.storage, l.acct, l.path, req.Root, req.Paths.Content())
+			for i, blob := range res.Nodes {
+				if i >= len(single) {
+					if uncertain {
+						break
+					}
+					return fmt.Sprintf("TrieNodes batch returned %d items, the same %d paths requested one by one yield %d (root %x, paths %x)",
+						len(res.Nodes), len(lookups), len(single), req.Root, req.Paths.Content())
+				}
+				if !bytes.Equal(blob, single[i]) {
+					l := lookups[from[i]]
+					return fmt.Sprintf("TrieNodes batch item %d (%x) differs from the reply to the same path requested alone (%x): lookup %d, storage=%v account %x path %x (root %x, paths %x)",
+						i, blob, single[i], from[i], l.storage, l.acct, l.path, req.Root, req.Paths.Content())
+				}
 			}
+			if !malformed && !uncertain && !mayBeCut && len(res.Nodes) != len(single) {
+				return fmt.Sprintf("TrieNodes batch returned %d items although no limit was hit, the same %d paths requested one by one yield %d (root %x, bytes %d, paths %x)",
+					len(res.Nodes), len(lookups), len(single), req.Root, req.Bytes, req.Paths.Content())
+			}
+			return ""
 		}
-		if !malformed && !uncertain && !mayBeCut && len(res.Nodes) != len(single) {
-			t.Fatalf("TrieNodes batch returned %d items although no limit was hit, the same %d paths requested one by one yield %d (root %x, bytes %d, paths %x)",
-				len(res.Nodes), len(lookups), len(single), req.Root, req.Bytes, req.Paths.Content())
+		if msg := compare(false); msg != "" && (!skipped || compare(true) != "") {
+			t.Fatalf("%s", msg)
 		}
-		v.diffed = len(single)
+		v.diffed = len(lookups)
+	}
+	missed := map[*reftrie.Result]bool{}
+	for i, l := range lookups {
+		if i >= len(res.Nodes) {
+			break
+		}
+		if l.want == nil {
+			missed[l.tr] = true
+		} else if missed[l.tr] {
+			v.missHit = true
+		}
 	}
 	v.truncated = filled < expect
 	v.nontriv = filled > 0 && (v.truncated || len(lookups) > filled)
 	switch {
 	case malformed:
 		v.class = "node/badpaths-served"
+	case v.truncated && !mayBeCut && avail == c48Must:
+		v.class = "node/unservable-path-drops-rest"
 	case v.truncated:
 		v.class = "node/truncated"
 	case filled == 0:
@@ -1499,11 +1560,133 @@ func c48GenPath(rt *rapid.T, nodePaths []string, label string) refrlp.Item {
 	}
 }
 
+// c48GenFamily draws well-formed compact paths around ONE existing key of a trie, to be
+// served from the same per-request trie: the prefixes of the key (stored nodes, and
+// positions inside an extension that hold nothing), paths running past the leaf
+// (too long, the full key with and without terminator), non-existent or existing
+// siblings of those prefixes and garbage extensions below them. Order: longest first,
+// shortest first or a drawn permutation; duplicates are possible.
+func c48GenFamily(rt *rapid.T, tr *reftrie.Result, key common.Hash, label string) [][]byte {
+	var nib []byte
+	for _, b := range key {
+		nib = append(nib, b>>4, b&0x0f)
+	}
+	deepest := 0 // position of the deepest stored node on the key's path (normally the leaf)
+	var stored []int
+	for i := 0; i <= 64; i++ {
+		if _, ok := tr.Nodes[string(nib[:i])]; ok {
+			deepest = i
+			stored = append(stored, i)
+		}
+	}
+	type cand struct {
+		nib  []byte
+		term bool
+	}
+	var cands []cand
+	add := func(n []byte, term bool) { cands = append(cands, cand{append([]byte{}, n...), term}) }
+	for i := 0; i <= deepest; i++ { // every prefix down to the leaf
+		add(nib[:i], false)
+	}
+	for i := deepest + 1; i <= deepest+3 && i <= 64; i++ { // past the leaf, still on the key
+		add(nib[:i], false)
+	}
+	add(nib, false)
+	add(nib, true)
+	for _, i := range stored { // siblings and children off the key's path
+		x := byte(rapid.IntRange(0, 15).Draw(rt, fmt.Sprintf("%s/sib%d", label, i)))
+		if i > 0 {
+			add(append(append([]byte{}, nib[:i-1]...), x), false)
+		}
+		if i < 64 {
+			add(append(append([]byte{}, nib[:i]...), x), false)
+		}
+	}
+	add(append(append([]byte{}, nib[:deepest]...), rapid.SliceOfN(rapid.ByteRange(0, 15), 1, 5).Draw(rt, label+"/ext")...), rapid.Bool().Draw(rt, label+"/extterm"))
+	if deepest > 0 {
+		add(nib[:deepest], true)
+	}
+	// selection
+	keep := rapid.IntRange(1, 4).Draw(rt, label+"/keep") // keep each candidate with probability keep/4
+	var sel []cand
+	for i, c := range cands {
+		if keep == 4 || rapid.IntRange(0, 3).Draw(rt, fmt.Sprintf("%s/k%d", label, i)) < keep {
+			sel = append(sel, c)
+		}
+	}
+	if len(sel) == 0 {
+		sel = append(sel, cands[deepest])
+	}
+	switch rapid.IntRange(0, 3).Draw(rt, label+"/order") {
+	case 0, 1: // longest first
+		sort.SliceStable(sel, func(i, j int) bool { return len(sel[i].nib) > len(sel[j].nib) })
+	case 2: // shortest first
+		sort.SliceStable(sel, func(i, j int) bool { return len(sel[i].nib) < len(sel[j].nib) })
+	default:
+		perm := rapid.Permutation(sel).Draw(rt, label+"/perm")
+		sel = perm
+	}
+	if len(sel) > 14 {
+		sel = sel[:14]
+	}
+	var out [][]byte
+	for _, c := range sel {
+		out = append(out, c48HexToCompact(c.nib, c.term))
+	}
+	return out
+}
+
+// c48GenFamilySets draws 1..3 path families (account trie: one single-path set per
+// path; storage trie: one path set) for a well-formed request.
+func c48GenFamilySets(rt *rapid.T, m *c48Model, withStorage []*c48Acct) []refrlp.Item {
+	var sets []refrlp.Item
+	total := 0
+	nFam := rapid.IntRange(1, 3).Draw(rt, "nFam")
+	for f := 0; f < nFam && total < 40; f++ {
+		lab := fmt.Sprintf("fam%d", f)
+		if len(withStorage) > 0 && rapid.Bool().Draw(rt, lab+"/storage") {
+			a := withStorage[rapid.IntRange(0, len(withStorage)-1).Draw(rt, lab+"/aidx")]
+			key := a.Slots[rapid.IntRange(0, len(a.Slots)-1).Draw(rt, lab+"/slot")].Hash
+			items := []refrlp.Item{refrlp.S(a.Hash[:])}
+			for _, p := range c48GenFamily(rt, a.St, key, lab) {
+				items = append(items, refrlp.S(p))
+				total++
+			}
+			sets = append(sets, refrlp.L(items...))
+		} else {
+			key := m.Accts[rapid.IntRange(0, len(m.Accts)-1).Draw(rt, lab+"/acct")].Hash
+			for _, p := range c48GenFamily(rt, m.Trie, key, lab) {
+				sets = append(sets, refrlp.L(refrlp.S(p)))
+				total++
+			}
+		}
+	}
+	return sets
+}
+
 func c48GenNodesReq(rt *rapid.T, env *c48Env) []byte {
 	root := c48PickRoot(rt, env)
 	m, _ := env.lookupRoot(root)
 	if m == nil {
 		m = env.head
+	}
+	if len(m.Accts) > 0 && rapid.IntRange(0, 9).Draw(rt, "family") < 4 {
+		var withStorage []*c48Acct
+		for _, a := range m.Accts {
+			if len(a.Slots) > 0 {
+				withStorage = append(withStorage, a)
+			}
+		}
+		budget := uint64(softResponseLimit)
+		if rapid.IntRange(0, 3).Draw(rt, "fam/budget") == 0 {
+			budget = c48PickBytes(rt)
+		}
+		return refrlp.Encode(refrlp.L(
+			refrlp.Uint(rapid.Uint64().Draw(rt, "id")),
+			refrlp.S(root[:]),
+			refrlp.L(c48GenFamilySets(rt, m, withStorage)...),
+			refrlp.Uint(budget),
+		))
 	}
 	accPaths := c48SortedKeys(m.Trie.Nodes)
 	var withStorage []*c48Acct
@@ -1602,6 +1785,12 @@ func c48Record(st *vs.S, v c48Verdict, mutated bool, scheme string, payload []by
 	}
 	c.Class(cls)
 	c.Class("scheme/" + scheme)
+	if v.diffed > 0 {
+		c.Class("node/diffed-one-by-one")
+	}
+	if v.missHit {
+		c.Class("node/miss-before-hit-same-trie")
+	}
 	c.NonTrivial(v.nontriv, v.desc)
 	c.Sample(v.nontriv, func() any {
 		p := payload
